@@ -428,8 +428,100 @@ def run_joint(case):
     return r
 
 
+# -- sources that contain nodata pixels ------------------------------------------------------------------------------
+MASKS = ("isolated", "block", "half", "all", "all-but-one", "second-plane-all")
+
+
+def mask_for(name, shape, ntime):
+    """Boolean mask(s) of source pixels holding the source nodata value. 'block' = exactly the first 4x4 source chunk,
+    'half' = left half (whole chunks for 4x4 chunking), 'all' = every pixel."""
+    H, W = shape
+    m = np.zeros(shape, dtype=bool)
+    if name == "isolated":
+        m[1, 2] = m[H - 2, W - 3] = m[3, 3] = True
+    elif name == "block":
+        m[:4, :4] = True
+    elif name == "half":
+        m[:, : W // 2] = True
+    elif name in ("all", "second-plane-all"):
+        m[:] = True
+    elif name == "all-but-one":
+        m[:] = True
+        m[H // 2, W // 2] = False
+    if ntime == 0:
+        return m
+    mm = np.stack([m] * ntime)
+    if name == "second-plane-all":
+        mm[0] = False
+    return mm
+
+
+def gen_masked(tier):
+    def g():
+        for shape in SRC_SHAPES:
+            for dest in (("identical", "shift+3-2", "subpixel-shift", "scale2", "scale-half", "bigger", "rot-coarse")
+                         if tier == "quick" else DESTS):
+                for dtype in ("int16", "float32", "uint8"):
+                    for nds in ("src", "both", "src+dst0", "src0"):
+                        for sc, dc in (((4, 4), (4, 4)), ((4, 4), (3, 4)), ((8, 8), (4, 4)), ((1, 1), (5, 7))):
+                            for mask in MASKS:
+                                for ntime in (0, 2):
+                                    if (mask == "second-plane-all") != (ntime == 2) and mask == "second-plane-all":
+                                        continue
+                                    if tier == "quick" and ntime == 2 and mask not in ("block", "second-plane-all"):
+                                        continue
+                                    yield (shape, dtype, nds, sc, dc, dest, ntime, mask)
+
+    return g
+
+
+def run_masked(case):
+    """Source pixels equal to the source nodata value (isolated, filling whole chunks, everything): every one of them must
+    come out as the destination fill value, exactly as in the in-memory path and the brute-force reference."""
+    shape, dtype, nds, schunk, dchunk, dest, ntime, mask = case
+    P, dshape = DESTS[dest]
+    dshape = dshape or shape
+    sg = GeoBox(shape, SRC_A, CRS_M)
+    dg = GeoBox(dshape, SRC_A * P, CRS_M)
+    src_nd, dst_nd = nodata_vals(dtype, nds)
+    data = src_data(shape, dtype, ntime).copy()
+    m = mask_for(mask, shape, ntime)
+    data[m] = np.dtype(dtype).type(src_nd)
+    tm = [f"2020-01-0{t + 1}" for t in range(ntime)] if ntime else None
+    xx = wrap_xr(data, sg, time=tm, nodata=src_nd)
+    ch = ((1,) if ntime else ()) + tuple(schunk)
+    xd = wrap_xr(da.from_array(data, chunks=ch), sg, time=tm, nodata=src_nd)
+    kw = {} if dst_nd is None else dict(dst_nodata=dst_nd)
+    whole = xr_reproject(xx, dg, resampling="nearest", **kw).values
+    lazy = xr_reproject(xd, dg, resampling="nearest", chunks=tuple(dchunk), **kw)
+    cls = f"{np.dtype(dtype).kind}:{nds}:mask-{mask}"
+    r = R(outcome=f"masked:{dest}:{cls}")
+    try:
+        chunked, _ = execute(lazy.data)
+    except BlockMismatch as e:
+        return r.fail(f"chunked:block-shape:masked:{dest}", f"{case}: {e}")
+    fill = expected_fill(dtype, src_nd, dst_nd)
+    filled = data.copy()
+    filled[m] = fill
+    planes = [()] if ntime == 0 else [(t,) for t in range(ntime)]
+    ref = np.stack([brute_nearest(filled[p], P, dshape, fill) for p in planes]) if ntime else brute_nearest(filled, P, dshape, fill)
+    covered = ref != fill
+    r.nontrivial = True
+    if not same(chunked, whole):
+        kind = _classify(chunked, whole, covered, fill)
+        r.fail(f"chunked!=whole:{kind}:{cls}", f"{case}: chunked vs in-memory differ at {_diff(chunked, whole)}")
+    if not same(chunked, ref):
+        kind = _classify(chunked, ref, covered, fill)
+        r.fail(f"chunked!=reference:{kind}:{cls}", f"{case}: chunked vs brute-force reference differ at {_diff(chunked, ref)} (fill {fill!r})")
+    if not same(whole, ref) and same(chunked, whole):
+        r.fail(f"whole!=reference:{cls}", f"{case}: in-memory path vs brute-force reference differ at {_diff(whole, ref)}")
+    return r
+
+
 def slices(tier):
     return [
+        e1.Slice("masked-source", gen_masked(tier), run_masked,
+                 "sources holding nodata pixels (isolated / a whole chunk / half / all / one plane) x nodata settings x chunkings x destinations"),
         e1.Slice("joint", gen_joint(tier), run_joint, "pairs of reprojections differing in one parameter, computed in one graph"),
         e1.Slice("same-crs", gen_main(tier), run_main, "chunkings x destinations x dtypes x nodata x time"),
         e1.Slice("cross-crs", gen_cross(tier), run_cross, "3857<->4326 coverage/fill classes"),
